@@ -13,6 +13,8 @@ import Mathlib.Tactic.Ring
 import Mathlib.Tactic.FieldSimp
 import Mathlib.Tactic.Positivity
 
+set_option linter.unusedSectionVars false
+
 namespace Compmech.EigPost
 
 /-! ### scatter / gather -/
@@ -278,6 +280,24 @@ theorem assignRows_error (n c : Nat) (idx : List Nat) (v : Block α)
   unfold assignRows
   rw [if_neg h]
 
+theorem assignRows_shape (n c : Nat) (idx : List Nat) (v e : Block α)
+    (h : assignRows n c idx v = .ok e) : e.rows = n ∧ e.ncols = c := by
+  unfold assignRows at h
+  by_cases h1 : (v.rows = idx.length ∨ v.rows = 1) ∧ (v.ncols = c ∨ v.ncols = 1)
+  swap
+  · rw [if_neg h1] at h; cases h
+  rw [if_pos h1] at h
+  dsimp only at h
+  by_cases h2 : idx.all (· < n) = true
+  swap
+  · rw [if_neg h2] at h; cases h
+  rw [if_pos h2] at h
+  injection h with h
+  subst h
+  refine ⟨rfl, ?_⟩
+  unfold Block.ncols at *
+  split_ifs <;> simp_all
+
 /-- without row broadcasting, column `j` of the result is the scatter of column `j` of the value -/
 theorem assignRows_col (n c : Nat) (idx : List Nat) (v e : Block α) (hrows : v.rows = idx.length)
     (h : assignRows n c idx v = .ok e) (j : Nat) (x : List α) (hx : e.cols[j]? = some x)
@@ -340,5 +360,617 @@ theorem pencil_scatter (Kf Gf : Nat → Nat → K) (n : Nat) (idx : List Nat) (w
   · rw [dotIdx_eq_zero _ idx w (hK i hi hmem), dotIdx_eq_zero _ idx w (hG i hi hmem)]; ring
 
 end pencil
+
+/-! ### `lb`: every returned pair solves the full-size problem -/
+
+section lbthm
+variable {K : Type} [Field K] [DecidableEq K]
+
+theorem negInvVals_getElem? (vals : List K) (c : Nat) (lam : K)
+    (h : (negInvVals vals)[c]? = some (some lam)) : ∃ μ, vals[c]? = some μ ∧ lam * μ = -1 := by
+  unfold negInvVals at h
+  rw [List.getElem?_map] at h
+  obtain ⟨μ, hμ, h'⟩ := Option.map_eq_some_iff.1 h
+  refine ⟨μ, hμ, ?_⟩
+  by_cases h0 : μ = 0
+  · rw [if_pos h0] at h'; cases h'
+  · rw [if_neg h0] at h'
+    injection h' with h'
+    subst h'
+    field_simp
+
+theorem getElem?_lt_of_eq_some {β : Type} (l : List β) (c : Nat) (x : β) (h : l[c]? = some x) : c < l.length := by
+  by_contra hc
+  rw [List.getElem?_eq_none (by omega)] at h
+  cases h
+
+/-- the reduced paths (`remove_null_cols`, solve, scatter) -/
+theorem lb_reduced_pairs (n num : Nat) (Kc : Coo K) (Gf : Nat → Nat → K) (raw : Out K K) (v e : Block K)
+    (hsym : ∀ i j, Kc.toFun i j = Kc.toFun j i)
+    (hnull : ∀ i j, i < n → i ∉ usedCols n Kc → Gf i j = 0)
+    (hok : SolverOK Gf Kc.toFun (usedCols n Kc) raw)
+    (hvr : v.rows = raw.vecs.rows)
+    (hvc : ∀ (j : Nat) w, v.cols[j]? = some w → raw.vecs.cols[j]? = some w)
+    (hvn : ∀ c, c < raw.vecs.ncols → c < num → c < v.ncols)
+    (he : assignRows n num (usedCols n Kc) v = .ok e) :
+    ∀ (c : Nat) (lam : K) (x : List K), (negInvVals raw.vals)[c]? = some (some lam) → e.cols[c]? = some x →
+      x.length = n ∧ (∀ i < n, dotFrom (fun j => Kc.toFun i j + lam * Gf i j) 0 x = 0) ∧
+      (∀ i < n, i ∉ usedCols n Kc → x.getD i 0 = 0) := by
+  intro c lam x hlam hx
+  obtain ⟨μ, hμ, hlm⟩ := negInvVals_getElem? _ _ _ hlam
+  have hc1 : c < raw.vecs.ncols := by rw [← hok.nvals]; exact getElem?_lt_of_eq_some _ _ _ hμ
+  have hrows : v.rows = (usedCols n Kc).length := hvr.trans hok.rows_eq
+  -- the number of columns of `e` is `num`
+  have hc2 : c < num := by
+    have hlen := getElem?_lt_of_eq_some _ _ _ hx
+    have hen : e.ncols = num := (assignRows_shape _ _ _ _ _ he).2
+    unfold Block.ncols at hen; omega
+  obtain ⟨-, -, w, hw, rfl⟩ := assignRows_col n num _ v e hrows he c x hx (hvn c hc1 hc2)
+  have hsol := hok.pairs c μ w hμ (hvc c w hw)
+  refine ⟨scatterFrom_length _ _ _ _, ?_, ?_⟩
+  · refine pencil_scatter Kc.toFun Gf n _ w μ lam (usedCols_sorted n Kc) (usedCols_lt n Kc) hlm hsol ?_ ?_
+    · intro i hi hni u _
+      rw [hsym]; exact toFun_eq_zero_of_not_used n Kc u i hi hni
+    · intro i hi hni u _
+      exact hnull i u hi hni
+  · intro i _ hni
+    exact scatterFrom_getD_of_not_mem n _ w 0 i (by simpa using hni)
+
+theorem except_map_eq_ok {ε α β : Type} (f : α → β) (x : Except ε α) (b : β) (h : x.map f = .ok b) :
+    ∃ a, x = .ok a ∧ f a = b := by
+  cases x with
+  | error e => cases h
+  | ok a => exact ⟨a, rfl, by injection h⟩
+
+theorem lb_pairs_aux (n num : Nat) (kMin sparse : Bool) (Kc : Coo K) (Gf : Nat → Nat → K)
+    (first second : Option (Out K K)) (o : Out (Option K) K)
+    (hret : (lb n num kMin sparse Kc first second).2 = .ok o)
+    (hsym : ∀ i j, Kc.toFun i j = Kc.toFun j i)
+    (hnull : ∀ i j, i < n → i ∉ usedCols n Kc → Gf i j = 0)
+    (hdirect : sparse = true → first.isSome → usedCols n Kc = List.range n)
+    (hsolver : ∀ idx raw, lbSource n sparse Kc first second = some (idx, raw) →
+      SolverOK Gf Kc.toFun idx raw) :
+    ∀ (c : Nat) (lam : K) (x : List K), o.vals[c]? = some (some lam) → o.vecs.cols[c]? = some x →
+      x.length = n ∧ (∀ i < n, dotFrom (fun j => Kc.toFun i j + lam * Gf i j) 0 x = 0) ∧
+      (∀ i < n, i ∉ usedCols n Kc → x.getD i 0 = 0) := by
+  unfold lb at hret
+  cases sparse with
+  | true =>
+    simp only [if_true] at hret
+    cases first with
+    | some o1 =>
+      simp only at hret
+      injection hret with hret
+      subst hret
+      have hok := hsolver (List.range n) o1 (by simp [lbSource])
+      intro c lam x hlam hx
+      obtain ⟨μ, hμ, hlm⟩ := negInvVals_getElem? _ _ _ hlam
+      have hsol := hok.pairs c μ x hμ hx
+      have hxl : x.length = n := by simpa using hsol.1
+      refine ⟨hxl, ?_, ?_⟩
+      · intro i hi
+        have hr : List.range n = List.range' 0 x.length := by rw [hxl, List.range_eq_range']
+        rw [← dotIdx_range', ← hr, dotIdx_add_mul, hsol.2 i (by simpa using hi)]
+        have : dotIdx (Kc.toFun i) (List.range n) x + lam * (μ * dotIdx (Kc.toFun i) (List.range n) x)
+            = (1 + lam * μ) * dotIdx (Kc.toFun i) (List.range n) x := by ring
+        rw [this, hlm]; ring
+      · intro i hi hni
+        rw [hdirect rfl rfl] at hni
+        exact absurd (by simpa using hi) hni
+    | none =>
+      cases second with
+      | none => simp only at hret; cases hret
+      | some o2 =>
+        simp only at hret
+        obtain ⟨e, he, rfl⟩ := except_map_eq_ok _ _ _ hret
+        have hok := hsolver (usedCols n Kc) o2 (by simp [lbSource])
+        exact lb_reduced_pairs n num Kc Gf o2 o2.vecs e hsym hnull hok rfl (fun _ _ h => h)
+          (fun c hc _ => hc) he
+  | false =>
+    simp only [Bool.false_eq_true, if_false] at hret
+    cases first with
+    | none => simp only at hret; cases hret
+    | some o1 =>
+      simp only at hret
+      obtain ⟨e, he, rfl⟩ := except_map_eq_ok _ _ _ hret
+      have hok := hsolver (usedCols n Kc) o1 (by simp [lbSource])
+      refine lb_reduced_pairs n num Kc Gf o1 (o1.vecs.takeCols num) e hsym hnull hok rfl ?_ ?_ he
+      · intro j w hw
+        simp only [Block.takeCols, List.getElem?_take] at hw
+        split_ifs at hw with hj
+        · exact hw
+      · intro c hc hcn
+        simp only [Block.takeCols, Block.ncols, List.length_take] at hc ⊢
+        omega
+
+end lbthm
+
+/-! ### `lb`: exactly when the glue raises a shape error -/
+
+section lbshape
+variable {K : Type} [Field K] [DecidableEq K]
+
+theorem except_map_ok_iff {ε α β : Type} (f : α → β) (x : Except ε α) :
+    (∃ b, x.map f = .ok b) ↔ ∃ a, x = .ok a := by
+  cases x with
+  | error e => exact ⟨fun ⟨_, h⟩ => (by cases h), fun ⟨_, h⟩ => (by cases h)⟩
+  | ok a => exact ⟨fun _ => ⟨a, rfl⟩, fun _ => ⟨f a, rfl⟩⟩
+
+theorem lb_sparse_direct_aux (n num : Nat) (kMin : Bool) (Kc : Coo K) (o : Out K K)
+    (second : Option (Out K K)) :
+    (lb n num kMin true Kc (some o) second).2 = .ok ⟨negInvVals o.vals, o.vecs⟩ := rfl
+
+theorem lb_sparse_fallback_aux (n num : Nat) (kMin : Bool) (Kc : Coo K) (o : Out K K)
+    (hrows : o.vecs.rows = (usedCols n Kc).length) :
+    ((∃ r, (lb n num kMin true Kc none (some o)).2 = .ok r) ↔ (o.vecs.ncols = num ∨ o.vecs.ncols = 1)) ∧
+    (¬ (o.vecs.ncols = num ∨ o.vecs.ncols = 1) → (lb n num kMin true Kc none (some o)).2 =
+      .error (.shapeMismatch (o.vecs.rows, o.vecs.ncols) ((usedCols n Kc).length, num))) := by
+  have hl : (lb n num kMin true Kc none (some o)).2 =
+      (assignRows n num (usedCols n Kc) o.vecs).map fun e => ⟨negInvVals o.vals, e⟩ := rfl
+  rw [hl]
+  constructor
+  · rw [except_map_ok_iff, assignRows_ok_iff _ _ _ _ (usedCols_lt n Kc)]
+    simp [hrows]
+  · intro h
+    rw [assignRows_error _ _ _ _ (by simp [hrows, h])]
+    rfl
+
+theorem lb_dense_aux (n num : Nat) (kMin : Bool) (Kc : Coo K) (o : Out K K) (second : Option (Out K K))
+    (hrows : o.vecs.rows = (usedCols n Kc).length) :
+    ((∃ r, (lb n num kMin false Kc (some o) second).2 = .ok r) ↔
+      (min num o.vecs.ncols = num ∨ min num o.vecs.ncols = 1)) ∧
+    (¬ (min num o.vecs.ncols = num ∨ min num o.vecs.ncols = 1) →
+      (lb n num kMin false Kc (some o) second).2 =
+      .error (.shapeMismatch (o.vecs.rows, min num o.vecs.ncols) ((usedCols n Kc).length, num))) := by
+  have hl : (lb n num kMin false Kc (some o) second).2 =
+      (assignRows n num (usedCols n Kc) (o.vecs.takeCols num)).map fun e => ⟨negInvVals o.vals, e⟩ := rfl
+  have hn : (o.vecs.takeCols num).ncols = min num o.vecs.ncols := by simp [Block.takeCols, Block.ncols]
+  have hr : (o.vecs.takeCols num).rows = o.vecs.rows := rfl
+  rw [hl]
+  constructor
+  · rw [except_map_ok_iff, assignRows_ok_iff _ _ _ _ (usedCols_lt n Kc), hn, hr]
+    simp [hrows]
+  · intro h
+    rw [assignRows_error _ _ _ _ (by rw [hn]; exact fun hc => h hc.2), hn, hr]
+    rfl
+
+end lbshape
+
+/-! ### order and selection lemmas over an ordered field -/
+
+section order
+variable {K : Type} [Field K] [LinearOrder K] [IsStrictOrderedRing K]
+
+/-- `μ ↦ -1/μ` is increasing on the negative half-line and maps it to the positive one -/
+theorem negInv_lt_negInv {a b : K} (ha : a < 0) (hb : b < 0) (hab : a < b) : -1 / a < -1 / b := by
+  rw [neg_div, neg_div, one_div, one_div, neg_lt_neg_iff, inv_lt_inv_of_neg hb ha]
+  exact hab
+
+theorem negInv_pos {a : K} (ha : a < 0) : 0 < -1 / a := div_pos_of_neg_of_neg (by norm_num) ha
+
+theorem negInv_sorted_aux (l : List K) (hs : l.Pairwise (· < ·)) (hneg : ∀ μ ∈ l, μ < 0) :
+    (l.map fun μ => -1 / μ).Pairwise (· < ·) ∧ ∀ x ∈ l.map (fun μ => -1 / μ), 0 < x := by
+  constructor
+  · rw [List.pairwise_map]
+    exact hs.imp_of_mem fun {a b} ha hb hab => negInv_lt_negInv (hneg a ha) (hneg b hb) hab
+  · intro x hx
+    obtain ⟨μ, hμ, rfl⟩ := List.mem_map.1 hx
+    exact negInv_pos (hneg μ hμ)
+
+omit [LinearOrder K] [IsStrictOrderedRing K] in
+/-- modulus of the Cayley-transformed eigenvalue `ν = (μ+1)/(μ-1)` at `μ = -1/λ`: `|ν| = |λ-1| / |λ+1|` -/
+theorem cayley_of_lam {lam : K} (h0 : lam ≠ 0) (h1 : lam + 1 ≠ 0) :
+    (-1 / lam + 1) / (-1 / lam - 1) = -((lam - 1) / (lam + 1)) := by
+  have h2 : -1 - lam ≠ 0 := by
+    intro h; apply h1
+    have : lam + 1 = -(-1 - lam) := by ring
+    rw [this, h, neg_zero]
+  have h3 : -1 / lam - 1 ≠ 0 := by
+    have : -1 / lam - 1 = (-1 - lam) / lam := by field_simp
+    rw [this]; exact div_ne_zero h2 h0
+  field_simp
+  ring
+
+theorem cayley_abs_lt_one_of_pos {lam : K} (h : 0 < lam) : |(lam - 1) / (lam + 1)| < 1 := by
+  have hp : 0 < lam + 1 := by linarith
+  rw [abs_div, abs_of_pos hp, div_lt_one hp, abs_lt]
+  constructor <;> linarith
+
+theorem cayley_abs_gt_one_of_neg {lam : K} (h : lam < 0) (h1 : lam + 1 ≠ 0) : 1 < |(lam - 1) / (lam + 1)| := by
+  have hp : 0 < |lam + 1| := abs_pos.2 h1
+  rw [abs_div, one_lt_div hp, abs_of_neg (by linarith : lam - 1 < 0)]
+  rcases lt_or_gt_of_ne h1 with h2 | h2
+  · rw [abs_of_neg h2]; linarith
+  · rw [abs_of_pos h2]; linarith
+
+theorem cayley_mono {a b : K} (ha : 1 ≤ a) (hab : a < b) : |(a - 1) / (a + 1)| < |(b - 1) / (b + 1)| := by
+  have hpa : 0 < a + 1 := by linarith
+  have hpb : 0 < b + 1 := by linarith
+  rw [abs_of_nonneg (div_nonneg (by linarith) hpa.le), abs_of_nonneg (div_nonneg (by linarith) hpb.le),
+    div_lt_div_iff₀ hpa hpb]
+  nlinarith
+
+/-- Selection by smallest `|ν|` (shift-invert `sigma = 1`, `mode = 'cayley'`, `which = 'SM'`): when the
+reference load is sub-critical (no multiplier in `(0, 1]`), anything selected in preference to a positive
+multiplier `ln` is itself a positive multiplier, not larger than `ln`. -/
+theorem cayley_select_aux {ls ln : K} (hs : ls < 0 ∨ 1 < ls) (hs1 : ls + 1 ≠ 0) (hn : 1 < ln)
+    (hsel : |(ls - 1) / (ls + 1)| ≤ |(ln - 1) / (ln + 1)|) : 1 < ls ∧ ls ≤ ln := by
+  rcases hs with h | h
+  · have h1 := cayley_abs_gt_one_of_neg h hs1
+    have h2 := cayley_abs_lt_one_of_pos (by linarith : 0 < ln)
+    linarith
+  · refine ⟨h, ?_⟩
+    by_contra hlt
+    have := cayley_mono (by linarith : 1 ≤ ln) (not_le.1 hlt)
+    linarith
+
+end order
+
+/-! ### scaling laws at the level of the pencil equation -/
+
+section scaling
+variable {K : Type} [Field K]
+
+theorem dotFrom_congr (f g : Nat → K) : ∀ (v : List K) (i : Nat), (∀ j, f j = g j) →
+    dotFrom f i v = dotFrom g i v := by
+  intro v i h
+  have : f = g := funext h
+  rw [this]
+
+/-- `KG ↦ s·KG` divides the multiplier by `s` (same mode) -/
+theorem lb_scale_aux (Kf Gf : Nat → Nat → K) (s lam : K) (hs : s ≠ 0) (v : List K) (i : Nat)
+    (h : dotFrom (fun j => Kf i j + lam * Gf i j) 0 v = 0) :
+    dotFrom (fun j => Kf i j + lam / s * (s * Gf i j)) 0 v = 0 := by
+  rw [← h]
+  apply dotFrom_congr
+  intro j
+  field_simp
+
+end scaling
+
+/-! ### rounding (`numpy.rint`) -/
+
+section rounding
+variable {K : Type} [Field K] [LinearOrder K] [IsStrictOrderedRing K] [FloorRing K]
+
+theorem rint_mono {x y : K} (h : x ≤ y) : rint x ≤ rint y := by
+  have hx1 := Int.floor_le x
+  have hx2 := Int.lt_floor_add_one x
+  have hy1 := Int.floor_le y
+  have hy2 := Int.lt_floor_add_one y
+  have hfg : Int.floor x ≤ Int.floor y := Int.floor_le_floor h
+  unfold rint
+  dsimp only
+  rcases lt_or_eq_of_le hfg with hlt | heq
+  · split_ifs <;> omega
+  · rw [heq] at hx1 hx2 ⊢
+    split_ifs <;> first | omega | (exfalso; linarith)
+
+theorem lt_of_rint_lt {x y : K} (h : rint x < rint y) : x < y := by
+  by_contra hn
+  exact absurd (rint_mono (not_lt.1 hn)) (not_le.2 h)
+
+/-- values more than one unit apart never share a rounding bucket (exactly one unit apart they can:
+`rint 1.5 = rint 2.5 = 2`) -/
+theorem rint_lt_of_add_one_lt {x y : K} (h : x + 1 < y) : rint x < rint y := by
+  have hx1 := Int.floor_le x
+  have hx2 := Int.lt_floor_add_one x
+  have hy1 := Int.floor_le y
+  have hy2 := Int.lt_floor_add_one y
+  have hfg : Int.floor x + 1 ≤ Int.floor y := by
+    rw [← Int.floor_add_one]; exact Int.floor_le_floor h.le
+  unfold rint
+  dsimp only
+  rcases lt_or_eq_of_le hfg with hlt | heq
+  · split_ifs <;> omega
+  · rw [← heq] at hy1 hy2 ⊢
+    push_cast at hy1 hy2 ⊢
+    split_ifs <;> first | omega | (exfalso; linarith)
+
+end rounding
+
+/-! ### the stable insertion sort -/
+
+section isort
+variable {α : Type}
+
+theorem insertBy_perm (le : α → α → Bool) (a : α) : ∀ l : List α, (insertBy le a l).Perm (a :: l) := by
+  intro l
+  induction l with
+  | nil => exact List.Perm.refl _
+  | cons b l ih =>
+    unfold insertBy
+    split_ifs
+    · exact List.Perm.refl _
+    · exact (List.Perm.cons b ih).trans (List.Perm.swap a b l)
+
+theorem isort_perm (le : α → α → Bool) : ∀ l : List α, (isort le l).Perm l := by
+  intro l
+  induction l with
+  | nil => exact List.Perm.refl _
+  | cons a l ih => exact (insertBy_perm le a _).trans (List.Perm.cons a ih)
+
+theorem insertBy_sorted (le : α → α → Bool) (htot : ∀ a b, le a b = true ∨ le b a = true)
+    (htr : ∀ a b c, le a b = true → le b c = true → le a c = true) (a : α) :
+    ∀ l : List α, l.Pairwise (fun x y => le x y = true) → (insertBy le a l).Pairwise (fun x y => le x y = true) := by
+  intro l
+  induction l with
+  | nil => intro _; simp [insertBy]
+  | cons b l ih =>
+    intro hl
+    have hl' := List.pairwise_cons.1 hl
+    unfold insertBy
+    split_ifs with hab
+    · refine List.pairwise_cons.2 ⟨?_, hl⟩
+      intro c hc
+      rcases List.mem_cons.1 hc with rfl | hc'
+      · exact hab
+      · exact htr a b c hab (hl'.1 c hc')
+    · have hba : le b a = true := (htot a b).resolve_left hab
+      refine List.pairwise_cons.2 ⟨?_, ih hl'.2⟩
+      intro c hc
+      rcases List.mem_cons.1 ((insertBy_perm le a l).subset hc) with rfl | hc'
+      · exact hba
+      · exact hl'.1 c hc'
+
+theorem isort_sorted (le : α → α → Bool) (htot : ∀ a b, le a b = true ∨ le b a = true)
+    (htr : ∀ a b c, le a b = true → le b c = true → le a c = true) :
+    ∀ l : List α, (isort le l).Pairwise (fun x y => le x y = true) := by
+  intro l
+  induction l with
+  | nil => exact List.Pairwise.nil
+  | cons a l ih => exact insertBy_sorted le htot htr a _ ih
+
+theorem lexLE_total (a b : Int × Int) : lexLE a b = true ∨ lexLE b a = true := by
+  unfold lexLE
+  simp only [Bool.or_eq_true, Bool.and_eq_true, decide_eq_true_eq, beq_iff_eq]
+  omega
+
+theorem lexLE_trans (a b c : Int × Int) (h1 : lexLE a b = true) (h2 : lexLE b c = true) : lexLE a c = true := by
+  unfold lexLE at *
+  simp only [Bool.or_eq_true, Bool.and_eq_true, decide_eq_true_eq, beq_iff_eq] at *
+  omega
+
+theorem lexLE_fst {a b : Int × Int} (h : lexLE a b = true) : a.1 ≤ b.1 := by
+  unfold lexLE at h
+  simp only [Bool.or_eq_true, Bool.and_eq_true, decide_eq_true_eq, beq_iff_eq] at h
+  omega
+
+end isort
+
+/-! ### the `sort` step of `freq` -/
+
+section sortstep
+variable {K : Type} [Field K] [LinearOrder K] [IsStrictOrderedRing K] [FloorRing K]
+variable {F : Type} [Zero F]
+
+/-- the entries that survive `eigvals.real > 1e-6`, in sorted order -/
+def keptTriples (re im : F → K) (vals : List F) (cols : List (List F)) : List ((Int × Int) × F × List F) :=
+  (sortTriples re im vals cols).filter fun t => decide ((1 : K) / 1000000 < re t.2.1)
+
+theorem sortTriples_perm (re im : F → K) (vals : List F) (cols : List (List F)) :
+    (sortTriples re im vals cols).Perm ((vals.zip cols).map fun p => (sortKey re im p.1, p.1, p.2)) :=
+  isort_perm _ _
+
+theorem sortTriples_sorted (re im : F → K) (vals : List F) (cols : List (List F)) :
+    (sortTriples re im vals cols).Pairwise fun a b => lexLE a.1 b.1 = true :=
+  isort_sorted _ (fun a b => lexLE_total a.1 b.1) (fun a b c => lexLE_trans a.1 b.1 c.1) _
+
+theorem sortTriples_key (re im : F → K) (vals : List F) (cols : List (List F))
+    (t : (Int × Int) × F × List F) (ht : t ∈ sortTriples re im vals cols) :
+    t.1 = sortKey re im t.2.1 ∧ (t.2.1, t.2.2) ∈ vals.zip cols := by
+  obtain ⟨p, hp, rfl⟩ := List.mem_map.1 ((sortTriples_perm re im vals cols).subset ht)
+  exact ⟨rfl, hp⟩
+
+theorem sortStep_ok (re im : F → K) (vals : List F) (vecs : Block F) (out : Out F F)
+    (h : sortStep re im vals vecs = .ok out) :
+    vals.length ≤ vecs.ncols ∧ out.vals = (keptTriples re im vals vecs.cols).map (·.2.1) ∧
+      out.vecs = ⟨vecs.rows, (keptTriples re im vals vecs.cols).map (·.2.2)⟩ := by
+  unfold sortStep at h
+  by_cases hc : vecs.ncols < vals.length
+  · rw [if_pos hc] at h; cases h
+  · rw [if_neg hc] at h
+    injection h with h
+    subst h
+    exact ⟨not_lt.1 hc, rfl, rfl⟩
+
+/-- the sort only permutes (eigenvalue, eigenvector) pairs, then drops those with `real ≤ 1e-6` -/
+theorem sort_perm_aux (re im : F → K) (vals : List F) (vecs : Block F) (out : Out F F)
+    (h : sortStep re im vals vecs = .ok out) :
+    (out.vals.zip out.vecs.cols).Perm
+      ((vals.zip vecs.cols).filter fun p => decide ((1 : K) / 1000000 < re p.1)) ∧
+    out.vecs.rows = vecs.rows := by
+  obtain ⟨-, hv, hc⟩ := sortStep_ok re im vals vecs out h
+  rw [hv, hc]
+  refine ⟨?_, rfl⟩
+  dsimp only
+  rw [List.zip_map']
+  unfold keptTriples
+  have hperm := (sortTriples_perm re im vals vecs.cols).filter
+    (fun t => decide ((1 : K) / 1000000 < re t.2.1))
+  refine (hperm.map fun t => (t.2.1, t.2.2)).trans ?_
+  rw [List.filter_map, List.map_map]
+  have : ((fun t : (Int × Int) × F × List F => (t.2.1, t.2.2)) ∘
+      fun p : F × List F => (sortKey re im p.1, p.1, p.2)) = id := by
+    funext p; rfl
+  rw [this, List.map_id]
+  exact List.Perm.of_eq rfl
+
+theorem sort_sorted_aux (re im : F → K) (vals : List F) (vecs : Block F) (out : Out F F)
+    (h : sortStep re im vals vecs = .ok out) :
+    out.vals.Pairwise fun a b => lexLE (sortKey re im a) (sortKey re im b) = true := by
+  obtain ⟨-, hv, -⟩ := sortStep_ok re im vals vecs out h
+  rw [hv, List.pairwise_map]
+  have hs : (keptTriples re im vals vecs.cols).Pairwise fun a b => lexLE a.1 b.1 = true :=
+    (sortTriples_sorted re im vals vecs.cols).sublist List.filter_sublist
+  refine hs.imp_of_mem ?_
+  intro a b ha hb hab
+  have ha' := (sortTriples_key re im vals vecs.cols a (List.mem_of_mem_filter ha)).1
+  have hb' := (sortTriples_key re im vals vecs.cols b (List.mem_of_mem_filter hb)).1
+  rw [← ha', ← hb']; exact hab
+
+theorem sort_positive_aux (re im : F → K) (vals : List F) (vecs : Block F) (out : Out F F)
+    (h : sortStep re im vals vecs = .ok out) : ∀ w ∈ out.vals, (1 : K) / 1000000 < re w := by
+  obtain ⟨-, hv, -⟩ := sortStep_ok re im vals vecs out h
+  rw [hv]
+  intro w hw
+  obtain ⟨t, ht, rfl⟩ := List.mem_map.1 hw
+  have := (List.mem_filter.1 ht).2
+  simpa using this
+
+/-- What is true about the order of the true values: if the real parts entering the sort are pairwise more
+than 0.1 apart, the output is strictly ascending in the real part. -/
+theorem sort_ascending_partial_aux (re im : F → K) (vals : List F) (vecs : Block F) (out : Out F F)
+    (h : sortStep re im vals vecs = .ok out)
+    (hsep : vals.Pairwise fun a b => re a + 1 / 10 < re b ∨ re b + 1 / 10 < re a) :
+    out.vals.Pairwise fun a b => re a < re b := by
+  obtain ⟨hlen, hv, -⟩ := sortStep_ok re im vals vecs out h
+  rw [hv, List.pairwise_map]
+  -- separation holds between any two entries of the sorted list, in list order
+  have hsepZ : ((vals.zip vecs.cols).map fun p => (sortKey re im p.1, p.1, p.2)).Pairwise
+      fun a b => re a.2.1 + 1 / 10 < re b.2.1 ∨ re b.2.1 + 1 / 10 < re a.2.1 := by
+    rw [List.pairwise_map]
+    have : ((vals.zip vecs.cols).map Prod.fst).Pairwise
+        fun a b => re a + 1 / 10 < re b ∨ re b + 1 / 10 < re a := by
+      rw [List.map_fst_zip (by simpa [Block.ncols] using hlen)]; exact hsep
+    exact (List.pairwise_map.1 this)
+  have hsepT : (sortTriples re im vals vecs.cols).Pairwise
+      fun a b => re a.2.1 + 1 / 10 < re b.2.1 ∨ re b.2.1 + 1 / 10 < re a.2.1 :=
+    (sortTriples_perm re im vals vecs.cols).symm.pairwise hsepZ (fun {a b} hab => hab.symm)
+  have hboth := (hsepT.and (sortTriples_sorted re im vals vecs.cols)).sublist
+    (List.filter_sublist (p := fun t => decide ((1 : K) / 1000000 < re t.2.1)))
+  refine hboth.imp_of_mem ?_
+  intro a b ha hb hab
+  have ha' := (sortTriples_key re im vals vecs.cols a (List.mem_of_mem_filter ha)).1
+  have hb' := (sortTriples_key re im vals vecs.cols b (List.mem_of_mem_filter hb)).1
+  have hle : rint (re a.2.1 * 10) ≤ rint (re b.2.1 * 10) := by
+    have := lexLE_fst hab.2
+    rw [ha', hb'] at this
+    exact this
+  rcases hab.1 with h1 | h1
+  · linarith
+  · exfalso
+    have : rint (re b.2.1 * 10) < rint (re a.2.1 * 10) := rint_lt_of_add_one_lt (by linarith)
+    omega
+
+end sortstep
+
+/-! ### `reduced_dof`: the `take` bookkeeping -/
+
+section take
+
+theorem count_mod3_one (r : Nat) : ((List.range r).filter (· % 3 == 1)).length = (r + 1) / 3 := by
+  induction r with
+  | zero => rfl
+  | succ r ih =>
+    rw [List.range_succ, List.filter_append, List.length_append, ih]
+    by_cases h : r % 3 = 1
+    · simp [h]; omega
+    · simp [h]; omega
+
+theorem count_mod3_two (r : Nat) : ((List.range r).filter (· % 3 == 2)).length = r / 3 := by
+  induction r with
+  | zero => rfl
+  | succ r ih =>
+    rw [List.range_succ, List.filter_append, List.length_append, ih]
+    by_cases h : r % 3 = 2
+    · simp [h]; omega
+    · simp [h]; omega
+
+theorem length_flatMap_pair {β : Type} (l : List (β × β)) :
+    (l.flatMap fun p => [p.1, p.2]).length = 2 * l.length := by
+  induction l with
+  | nil => rfl
+  | cons a l ih => simp only [List.flatMap_cons, List.length_append, ih, List.length_cons, List.length_nil]; omega
+
+/-- `column_stack((i[1::3], i[2::3]))` fails exactly for `r ≡ 2 (mod 3)`; otherwise `take` has `2·⌊r/3⌋` entries -/
+theorem takeIdx_cases (r : Nat) :
+    (r % 3 = 2 ∧ takeIdx r = .error (.columnStack ((r + 1) / 3) (r / 3))) ∨
+    (r % 3 ≠ 2 ∧ ∃ t, takeIdx r = .ok t ∧ t.length = 2 * (r / 3)) := by
+  unfold takeIdx
+  dsimp only
+  rw [count_mod3_one, count_mod3_two]
+  by_cases h : r % 3 = 2
+  · left
+    refine ⟨h, ?_⟩
+    rw [if_neg (by omega)]
+  · right
+    refine ⟨h, ?_⟩
+    rw [if_pos (by omega)]
+    refine ⟨_, rfl, ?_⟩
+    rw [length_flatMap_pair, List.length_zip, count_mod3_one, count_mod3_two]
+    omega
+
+theorem filter_range_three_mul_succ (c : Nat) (hc : c < 3) (m : Nat) :
+    (List.range (3 * (m + 1))).filter (· % 3 == c) = (List.range (3 * m)).filter (· % 3 == c) ++ [3 * m + c] := by
+  have h3 : 3 * (m + 1) = 3 * m + 1 + 1 + 1 := by ring
+  rw [h3, List.range_succ, List.range_succ, List.range_succ]
+  simp only [List.filter_append, List.append_assoc]
+  congr 1
+  have e0 : (3 * m) % 3 = 0 := by omega
+  have e1 : (3 * m + 1) % 3 = 1 := by omega
+  have e2 : (3 * m + 2) % 3 = 2 := by omega
+  obtain rfl | rfl | rfl : c = 0 ∨ c = 1 ∨ c = 2 := by omega
+  all_goals simp [List.filter, e0, e1, e2]
+
+/-- explicit form of `take` for a size that is a multiple of three: strictly ascending, in range -/
+theorem takeIdx_three_mul (m : Nat) : ∃ t, takeIdx (3 * m) = .ok t ∧ t.length = 2 * m ∧
+    t.Pairwise (· < ·) ∧ ∀ u ∈ t, u < 3 * m := by
+  have hlen1 : ∀ m, ((List.range (3 * m)).filter (· % 3 == 1)).length = m := fun m => by
+    rw [count_mod3_one]; omega
+  have hlen2 : ∀ m, ((List.range (3 * m)).filter (· % 3 == 2)).length = m := fun m => by
+    rw [count_mod3_two]; omega
+  have key : ∀ m, ((((List.range (3 * m)).filter (· % 3 == 1)).zip
+      ((List.range (3 * m)).filter (· % 3 == 2))).flatMap fun p => [p.1, p.2]).Pairwise (· < ·) ∧
+      ∀ u ∈ ((((List.range (3 * m)).filter (· % 3 == 1)).zip
+      ((List.range (3 * m)).filter (· % 3 == 2))).flatMap fun p => [p.1, p.2]), u < 3 * m := by
+    intro m
+    induction m with
+    | zero => simp
+    | succ m ih =>
+      rw [filter_range_three_mul_succ 1 (by omega), filter_range_three_mul_succ 2 (by omega),
+        List.zip_append (by rw [hlen1, hlen2]), List.flatMap_append]
+      simp only [List.zip_cons_cons, List.zip_nil_right, List.flatMap_cons, List.flatMap_nil, List.append_nil]
+      constructor
+      · rw [List.pairwise_append]
+        refine ⟨ih.1, by simp, ?_⟩
+        intro a ha b hb
+        have := ih.2 a ha
+        simp only [List.mem_cons, List.not_mem_nil, or_false] at hb
+        omega
+      · intro u hu
+        rcases List.mem_append.1 hu with h | h
+        · have := ih.2 u h; omega
+        · simp only [List.mem_cons, List.not_mem_nil, or_false] at h
+          omega
+  refine ⟨_, ?_, ?_, (key m).1, (key m).2⟩
+  · unfold takeIdx
+    dsimp only
+    rw [if_pos (by rw [hlen1, hlen2])]
+  · rw [length_flatMap_pair, List.length_zip, hlen1, hlen2]; omega
+
+end take
+
+section reexpand
+variable {F : Type} [Zero F]
+
+/-- `new_eigvecs[take, :] = eigvecs` followed by reading rows `take` gives back `eigvecs`:
+re-expansion is a right inverse of the `take` selection, and the allocated height `3·rows//2` fits. -/
+theorem reduced_expand_inverse_aux (m : Nat) (cols : List (List F)) (hc : ∀ w ∈ cols, w.length = 2 * m) :
+    ∃ t e, takeIdx (3 * m) = .ok t ∧ reExpand t ⟨2 * m, cols⟩ = .ok e ∧ e.rows = 3 * m ∧
+      e.cols.map (gather t) = cols := by
+  obtain ⟨t, ht, hl, hp, hb⟩ := takeIdx_three_mul m
+  have h32 : 3 * (2 * m) / 2 = 3 * m := by omega
+  refine ⟨t, ⟨3 * m, cols.map fun col => scatterFrom t col 0 (3 * m)⟩, ht, ?_, rfl, ?_⟩
+  · unfold reExpand assignRows
+    dsimp only
+    rw [if_pos ⟨Or.inl hl.symm, Or.inl rfl⟩, if_pos rfl, if_pos hl.symm, h32]
+    rw [if_pos (by simpa using hb)]
+  · rw [List.map_map]
+    conv_rhs => rw [← List.map_id cols]
+    refine List.map_congr_left fun w hw => ?_
+    exact gather_scatterFrom (3 * m) t w hp hb (by rw [hc w hw, hl])
+
+end reexpand
 
 end Compmech.EigPost
